@@ -508,7 +508,12 @@ func (c *c19) sweep(w *sim.World, idx int) *Viol {
 		if n > c.maxN {
 			c.maxN = n
 		}
-		for size := 1; size <= n+1; size++ {
+		sizes := seqInts(n + 2)[1:]
+		if n > 20 {
+			// large registries: the boundary page sizes and the default page size of the SDK
+			sizes = []int{1, 2, 7, 50, 99, 100, 101, n - 1, n, n + 1}
+		}
+		for _, size := range sizes {
 			for _, reverse := range []bool{false, true} {
 				// key-cursor mode
 				var got []string
@@ -578,7 +583,7 @@ func (c *c19) Summary(w *sim.World) (string, []string) {
 
 var C19 = register(&HistProp{ID: "C19",
 	Genesis: func(t *rapid.T) *sim.GenSpec {
-		return sim.DrawGenesis(t, sim.GenOpts{ManyEntries: true, UsedInGen: true, MaxAtt: 5})
+		return sim.DrawGenesis(t, sim.GenOpts{ManyEntries: true, UsedInGen: true, MaxAtt: 5, ManyUsed: true})
 	},
 	Next: func(g *sim.G, i int) *sim.Op {
 		return Mix{Admin: 14, Recv: 3, Send: 1, Dep: 1, DepValid: 80, RecvBroken: 15, AdminHolder: 90, Rollback: 6, Restart: 2,
